@@ -713,8 +713,21 @@ func (env *SpecEnv) call(x *SCall) Val {
 		if recv.Ty == nil {
 			env.fail("method call on ghost value in %s", x.String())
 		}
-		obj, _, _ := types.LookupFieldOrMethod(recv.Ty, true, env.homeTypes(), s.Name)
+		obj, path, _ := types.LookupFieldOrMethod(recv.Ty, true, env.homeTypes(), s.Name)
 		if f, ok := obj.(*types.Func); ok {
+			if len(path) > 1 {
+				// promoted method of an embedded field
+				fsig := f.Type().(*types.Signature)
+				inner := u.readPathNoCheck(env.st, recv, path[:len(path)-1])
+				_, wantPtr := isPointer(fsig.Recv().Type())
+				_, basePtr := isPointer(recv.Ty)
+				_, innerPtr := isPointer(inner.Ty)
+				if wantPtr && basePtr && !innerPtr && !isInterface(inner.Ty) {
+					recv = Val{T: recv.T, Ty: types.NewPointer(inner.Ty), So: "Int"}
+				} else {
+					recv = inner
+				}
+			}
 			return env.pureCall(f, &recv, x.Args)
 		}
 		env.fail("no method %s on %v", s.Name, recv.Ty)
